@@ -375,7 +375,7 @@ open SafeC Gen
 /-!
 # C08 for `getenv_s` and `strerror_s`: after success nothing stale remains behind the terminator
 
-Same setting as `Props/C03ExtOs.lean` (declared extents only, ARBITRARY prior dest content).  Default (null-slack) build:
+Same setting as section `PartOs` of `Props/C03Ext.lean` (declared extents only, ARBITRARY prior dest content).  Default (null-slack) build:
 after a successful `getenv_s` / a `strerror_s` whose message fits, every cell of dest from the terminator up to `dmax` is
 zero.  After a truncating `strerror_s` EVERY cell of dest is determined in BOTH builds (prefix, `...`, NUL in the last
 cell), so nothing stale can remain — although the inner `strncpy_s(dest, dmax, msg, 0)` of the `dmax = 4` case takes the
